@@ -117,6 +117,13 @@ func buildStrategyV(s SubSpec, variant int) strategy.Strategy {
 	return st
 }
 
+// ind and strat build the instance a pipeline case is about (configuration, scale and variant).
+func (c *Case) ind() *IndInstance {
+	return makeIndV(indByName[c.Entity], c.Cfg, c.Scale, c.Variant)
+}
+
+func (c *Case) strat() strategy.Strategy { return buildStrategyV(c.spec(), c.Variant) }
+
 // canaryResult runs the first call of the case on a fresh instance under the canonical schedule
 // and returns everything observable: termination, outputs, rendered report.
 func canaryResult(c *Case) (digest string, flat []float64) {
